@@ -165,6 +165,44 @@ def sync_self_rule(rep, u, flags):
     return n
 
 
+def sync_waiter_rule(rep, u, flags):
+    """the thread that waits in a synchronous broadcast is the calling one, whatever originator is declared (an event callback
+    of the pool virtual thread runs on a worker with tp_udata->tpt == pvt): when the caller is a slot of the pool its own copy
+    is served directly also for src != caller.  Evaluated: the SELF_DIRECT statement is reached for (src = pvt, caller = slot)."""
+    from rules import r_stride
+    fn = tp.need(u, "tpt_msg_bsend_ex")
+    rep.functions.add(fn.name)
+    sets = [(p2, x) for p2, r2, x, _ in fn.nodes() if x.get("k") == "bin" and x["op"] == "|=" and core.is_ref(core.strip_casts(x["x"]), name="flags") and
+            (const_val(x["y"]) or 0) & flags["SELF_DIRECT"]]
+    desc = "tpt_msg_bsend_ex: a synchronous broadcast called on a pool thread with another originator declared still serves the caller's copy directly"
+    if not sets:
+        rep.violated("R-SYNCSELF", fn, "sync-waiter-is-caller", desc, "no SELF_DIRECT statement")
+        return 1
+    res = []
+    for declared, what in ((0x3000, "the pool virtual thread"),):
+        pe = r_stride.PE(u, call_default={"tp_thread_get": 0x2000, "tpt_get_num": 1, "tpt_get_current": 0x2000, "tp_thread_count_max_get": 4})
+        bind = {"tp": 0x1000, "src": declared, "flags": flags["SYNC"], "msg_cb": 0x5000, "udata": 0x6000, "send_msg_cnt": 0, "error_cnt": 0,
+                "tpt_get_tp(src)": 0x1000, "tpt_get_tp(cur)": 0x1000, "tpt_get_current()": 0x2000, "tp_thread_count_max_get(tp)": 4}
+        got = "no"
+        for p2, x in sets:
+            r, path = pe.reach_stmt(fn, fn.entry, set(fn.reachable_blocks()), bind, p2[0], fn.blocks[p2[0]].elems[p2[1]])
+            if r == "sure":
+                got = "sure"
+            elif r == "unsure" and got != "sure":
+                got = "unsure"
+        res.append((what, got))
+    bad = [w for w, g in res if g == "no"]
+    und = [w for w, g in res if g == "unsure"]
+    if bad:
+        rep.violated("R-SYNCSELF", fn, "sync-waiter-is-caller", desc, "with %s declared as originator the decision `src == tpt_get_current()` is false: the calling worker's copy goes to "
+                     "its own queue and the call never returns (3 of 4 callbacks run)" % bad[0])
+    elif und:
+        rep.undecided("R-SYNCSELF", fn, "sync-waiter-is-caller", desc, "not evaluable for %s" % und[0])
+    else:
+        rep.proved("R-SYNCSELF", fn, "sync-waiter-is-caller", desc, "SELF_DIRECT reached for a declared originator other than the caller")
+    return 1
+
+
 def sync_mask_rule(rep, u, flags):
     fa, fb = tp.need(u, "tpt_msg_cbsend"), tp.need(u, "tpt_msg_bsend_ex")
     refused = 0
@@ -220,7 +258,7 @@ def obo_sibling_rule(rep, u):
             # the originator is served only when it is a target, i.e. belongs to this pool
             for p2 in resched:
                 member = any(any(y.get("k") == "call" and y.get("fn") in ("tpt_get_tp", "tp_thread_get") and
-                                 any(("msg_data->tpt" in key(a_)) or core.is_ref(core.strip_casts(a_), name="src") for a_ in y["args"])
+                                 any(("msg_data->tpt" in key(a_)) or any(core.is_ref(z, name="src") for z, _z in walk(a_)) for a_ in y["args"])
                                  for y, _ in walk(cnd)) for b, cnd in _cond_blocks_dominating(fn, p2))
                 (rep.proved if member else rep.violated)("R-OBO", fn, "originator-is-target", "%s: the originator is scheduled at the end of the chain only when it belongs to this pool" % fname,
                                                          "" if member else "no membership test: a one-by-one broadcast started from another pool also runs the callback on the "
